@@ -19,12 +19,13 @@ typedef struct { sf_count_t start, len ; short *exp ; /* decoded [start-PADF, st
 
 static short isl_val (sf_count_t i, int c) { return (short) ((long) ((i * 37 + c * 1013 + 7) % 20011) - 10005) ; }
 
-/* can this container describe > 4 GiB of audio? (64-bit size fields, or no size field at all) */
+/* 2: the container can describe > 4 GiB of audio (64-bit size fields, or no size field at all); 1: only the 2 GiB crossing is judged */
 static int big_capable (int major)
 {	switch (major)
 	{	case SF_FORMAT_RF64 : case SF_FORMAT_W64 : case SF_FORMAT_CAF : case SF_FORMAT_AU :
-		case SF_FORMAT_IRCAM : case SF_FORMAT_PVF : case SF_FORMAT_PAF : case SF_FORMAT_NIST : return 1 ; }
-	return 0 ;
+		case SF_FORMAT_IRCAM : case SF_FORMAT_PVF : case SF_FORMAT_PAF : case SF_FORMAT_NIST : return 2 ;
+		case SF_FORMAT_SD2 : case SF_FORMAT_RAW : return 0 ; }
+	return 1 ;		/* 32-bit size fields: judged only up to the 2 GiB crossing (file of about 2.04 GiB) */
 }
 
 static int zero_is_zero_bytes (int format)
@@ -156,18 +157,20 @@ int main (int argc, char **argv)
 	zbuf = calloc (1, ZBUF_BYTES) ;
 	for (f = 0 ; f < vh_nfmts ; f++) for (c = 1 ; c <= 2 ; c++)
 	{	int format = vh_fmts [f].format, maj = vh_fmts [f].major, dg ;
-		if (!(getenv ("VH_BIG_ALL") ? (maj != SF_FORMAT_SD2 && maj != SF_FORMAT_RAW) : big_capable (maj))) continue ;
+		int cap = getenv ("VH_BIG_ALL") ? (big_capable (maj) ? 2 : 0) : big_capable (maj) ;
+		if (!cap) continue ;
 		if (!vh_sample_granular (format) || vh_bits (format) < 8) continue ;
-		if (!vh_accepts (format, c, 48000)) continue ;
-		for (mode = BIG_C11 ? 1 : 0 ; mode <= (BIG_C11 ? 2 : 0) ; mode++) for (dg = 0 ; dg <= (maj == SF_FORMAT_RF64) ; dg++) for (up = 1 ; up <= 2 ; up++)
+		if (!vh_accepts (format, c, 8000)) continue ;
+		for (mode = BIG_C11 ? 1 : 0 ; mode <= (BIG_C11 ? 2 : 0) ; mode++) for (dg = 0 ; dg <= (maj == SF_FORMAT_RF64) ; dg++) for (up = 1 ; up <= cap ; up++)
 		{	int tz = zero_is_zero_bytes (format) && ((f + c + up + (int) vh_seed0) & 1) ;
-			if (!vh_thorough && up == 1 && !(maj == SF_FORMAT_RF64 || maj == SF_FORMAT_AU)) continue ;	/* quick: the 2 GiB-only files for the 32-bit-field containers; all cross 4 GiB */
+			if (!vh_thorough && up == 1 && cap == 2 && !(maj == SF_FORMAT_RF64 || maj == SF_FORMAT_AU)) continue ;	/* quick: the 2 GiB-only files for the 32-bit-field containers; all cross 4 GiB */
 			if (!vh_thorough && (vh_bits (format) == 64 || (vh_bits (format) == 32 && c == 2 && (format & SF_FORMAT_SUBMASK) == SF_FORMAT_PCM_32))) continue ;
+			if (!vh_thorough && BIG_C11 && cap == 1 && mode != 1 + ((c + f) & 1)) continue ;		/* quick: one update mode per (format, channels) for the 2 GiB-only containers */
 			if (!vh_case ("%s ch=%d mode=%d downgrade=%d upto=%dGiB", vh_fname (format), c, mode, dg, up * 2)) continue ;
 			vh_statf (1, "fmt:%s", vh_fname (format)) ;
 			vh_sample ("%s ch=%d: %s%s, file grows past %d GiB through the real write calls (%s zero runs + typed islands at offsets 0, 2^31%s, end)", vh_fname (format), c,
 				mode == 0 ? "write, close, re-open" : mode == 1 ? "SFC_UPDATE_HEADER_NOW after every call" : "SFC_SET_UPDATE_HEADER_AUTO", dg ? ", SFC_RF64_AUTO_DOWNGRADE" : "", up * 2, tz ? "sf_writef_int" : "sf_write_raw", up == 2 ? ", 2^32" : "") ;
-			big_case (format, c, 48000, mode, dg, up, tz) ;
+			big_case (format, c, 8000, mode, dg, up, tz) ;
 			}
 		}
 	return vh_finish () ;
